@@ -61,6 +61,9 @@ TYPES = [
         F("leaf", R("Leaf"), default="{\"a\":1}"), F("u", R("U"), default="{\"int\":3}"),
         F("e", R("Color"), default="\"GREEN\""), F("f", R("F2"), default="\"ab\""), F("t", R("TrStr"), default="\"x\""),
         F("req", P("int32"))]),
+    record("DefRec", [F("opts", R("DefPrims"), default="{}"), F("part", R("DefPrims"), default="{\"i32\":1,\"b\":false}"), F("req", P("int32"))]),
+    record("OptDef", [F("od", P("int32"), optional=True, default="30"), F("otags", A(P("string")), optional=True, default="[\"a\",\"b\"]"),
+                      F("plain", P("string"), optional=True), F("req", P("int32"))]),
     record("DefOuter", [F("inner", R("DefPrims")), F("n", P("int32"), default="3"), F("oinner", R("DefPrims"), optional=True)]),
     record("KeyPart", [F("id", P("string")), F("n", P("int64"))]),
     record("KeyParams", [F("p", P("string"))]),
@@ -169,7 +172,9 @@ def tla_default(t, lit):
         if kind == "typeref": return tla_default({"primitive": d["type"]}, lit)
         if kind == "record":
             fs = all_fields(d)
-            return '[t |-> "rec", v |-> <<%s>>]' % ", ".join('[k |-> %s, v |-> %s]' % (tla_str(f["name"]), tla_default(f["type"], lit[f["name"]])) for f in fs if f["name"] in lit)
+            # a record literal denotes the record with its own defaulted fields filled in where the literal omits them
+            val = lambda f: lit[f["name"]] if f["name"] in lit else json.loads(f["defaultValue"])
+            return '[t |-> "rec", v |-> <<%s>>]' % ", ".join('[k |-> %s, v |-> %s]' % (tla_str(f["name"]), tla_default(f["type"], val(f))) for f in fs if f["name"] in lit or "defaultValue" in f)
         if kind == "standaloneUnion":
             (alias, v), = lit.items()
             m = [m for m in d["Union"]["Members"] if m["Alias"] == alias][0]
